@@ -63,6 +63,19 @@ class RadarSession:
             # radar redraws on every loop iteration only when something changed; continuous output means traffic
             pass
 
+    def ui_present(self):
+        return any("rsadsb/radar" in l for l in self.p.screen.text()[:4])
+
+    def widget_missing(self, key, present, tries=3):
+        """The tab selected by `key` stays without its widget although the rest of the UI is drawn
+        and the process is alive (True), or the widget shows up after all / nothing can be said (False)."""
+        for _ in range(tries):
+            self.key(key)
+            self.p.settle(0.4, 4.0)
+            if present():
+                return False
+        return self.p.alive() and self.ui_present()
+
     def panic_location(self):
         m = PANIC_RE.search(self.p.raw.decode("utf-8", "replace"))
         return m.group(1) if m else None
